@@ -57,5 +57,6 @@ def run(tier, seed, only=None):
         rep.add_stats(name, st)
         rep.notes.append("%s: BFS depth %d, %d states" % (name, st.max_len, st.nodes))
     rep.coverage["rule"] = RULE
-    rep.assumptions = ASSUME
+    from mc import scan
+    rep.assumptions = list(ASSUME) + [scan.audit()[1]]
     return rep
